@@ -357,8 +357,12 @@ impl<'a> Judge<'a> {
 
     /// `si`: index of the typed sequence, `ord`: the ordering typed, `shadow`: sequences that put the
     /// table into the structural class of known finding #21 with respect to this ordering
-    fn judge(&mut self, si: usize, ord: &[El], sc: &Scenario, obs: &Obs, shadow: &[usize]) {
-        const SHADOW: &str = "C12:overlap-group-shadowed-by-differently-structured-seq";
+    fn judge(&mut self, si: usize, ord: &[El], sc: &Scenario, obs: &Obs, shadow: &[usize], modded: &[usize]) {
+        // (a table can be in both classes; the first one that applies names the finding)
+        #[allow(non_snake_case)]
+        let SHADOW: &str = if !shadow.is_empty() || modded.is_empty() { "C12:overlap-group-shadowed-by-differently-structured-seq" } else { "C12:overlap-group-matched-by-taps-under-held-modifier" };
+        let both: Vec<usize> = shadow.iter().chain(modded.iter()).copied().collect();
+        let shadow: &[usize] = &both;
         let mode = self.mode;
         let wit_counts: Vec<usize> = (0..self.table.seqs.len()).map(|i| downs(&obs.trace, &tn(WIT[i])).len()).collect();
         let total_fired: usize = wit_counts.iter().sum();
@@ -537,7 +541,7 @@ fn is_mod_name(n: &str) -> bool {
 
 // ---------------------------------------------------------------- cases
 
-const N_FIXED: u64 = 24;
+const N_FIXED: u64 = 38;
 
 fn parse_accepts(cfg: &str) -> Result<(), String> {
     kanata_parser::cfg::new_from_str(cfg, Default::default()).map(|_| ()).map_err(|e| format!("{e}"))
@@ -563,7 +567,7 @@ impl Check for C12Check {
         "C12"
     }
     fn n_cases(&self, ctx: &Ctx) -> u64 {
-        N_FIXED + ctx.tier.sel(3_000, 60_000)
+        N_FIXED + ctx.tier.sel(5_000, 40_000)
     }
     fn describe(&self, ctx: &Ctx, idx: u64) -> Value {
         let (ts, _) = case_tables(ctx, idx);
@@ -647,6 +651,10 @@ impl Check for C12Check {
                     if !shadow.is_empty() {
                         out.inc("orderings_in_known_shadow_structure");
                     }
+                    let modded = table.overlap_group_vs_modded_taps(si, ord);
+                    if !modded.is_empty() {
+                        out.inc("orderings_in_known_modded_taps_structure");
+                    }
                     let n_presses = user_steps(ord, false).iter().filter(|s| s.0).count();
                     let has_inner_ov = ord.iter().take(ord.len().saturating_sub(1)).any(|e| matches!(e, El::Ov(_)));
                     let mut scs: Vec<Scenario> = vec![];
@@ -680,7 +688,16 @@ impl Check for C12Check {
                                 let hold = sc.hold_through;
                                 let mut j = Judge { out: &mut out, table: &table, cfg: &cfg, mode, leader, timeout };
                                 // the structural class only explains failures of the canonical typing
-                                j.judge(si, ord, sc, &obs, if hold { &[] } else { &shadow });
+                                let before = j.out.violations.len();
+                                j.judge(si, ord, sc, &obs, if hold { &[] } else { &shadow }, if hold { &[] } else { &modded });
+                                if !hold && shadow.is_empty() && !modded.is_empty() {
+                                    let failed = out.violations.len() > before;
+                                    out.inc(if failed { "modded_taps_structure_scenarios_failing" } else { "modded_taps_structure_scenarios_passing" });
+                                }
+                                if !hold && !shadow.is_empty() {
+                                    let failed = out.violations.len() > before;
+                                    out.inc(if failed { "shadow_structure_scenarios_failing" } else { "shadow_structure_scenarios_passing" });
+                                }
                             }
                             Err(e) => {
                                 out.inconclusive = Some(format!("config accepted by the parser but not by Kanata::new_from_str: {}", e.lines().next().unwrap_or("")));
@@ -696,7 +713,7 @@ impl Check for C12Check {
         out
     }
     fn rule(&self) -> String {
-        "case = 12 generated defseq tables (2-4 sequences of 1-4 elements over keys a-f: plain keys, S-/C-/A- chorded keys and groups, O-(..) groups of 2-6 keys; about a third deliberately derived from another sequence of the table as prefix / extension / sub- or super-group) judged by the parser-half oracle; the first accepted table is then typed under 2 of the 8 (input mode x leader) combinations (all 8 for the 24 fixed tables that are the same for every seed: the guide's examples, the repository's own overlap table, the known-finding witnesses): every sequence in every permitted ordering (capped at 8 quick / 24 thorough per sequence), with overlap groups released before the next key and held through it; every proper press-prefix followed by a key that occurs in no sequence; one inter-press position per ordering stretched to T-1 / T / T+1. Non-trivial = table reached the parser; distinct = (accept/reject, table shape) and (mode, leader, table shape) typed.".into()
+        "case = 12 generated defseq tables (2-4 sequences of 1-4 elements over keys a-f: plain keys, S-/C-/A- chorded keys and groups, O-(..) groups of 2-6 keys; about a third deliberately derived from another sequence of the table as prefix / extension / sub- or super-group) judged by the parser-half oracle; the first accepted table is then typed under 2 of the 8 (input mode x leader) combinations (all 8 for the fixed tables that are the same for every seed (38 cases): the guide's examples, the repository's own overlap table, the known-finding witnesses): every sequence in every permitted ordering (capped at 8 quick / 24 thorough per sequence), with overlap groups released before the next key and held through it; every proper press-prefix followed by a key that occurs in no sequence; one inter-press position per ordering stretched to T-1 / T / T+1. Non-trivial = table reached the parser; distinct = (accept/reject, table shape) and (mode, leader, table shape) typed.".into()
     }
     fn assumptions(&self) -> Vec<String> {
         vec![
